@@ -185,6 +185,15 @@ def gen_cases(tier, rng_seed):
             n = rng.randrange(1, len(s) + 1)
             exp = m_instr(n, s, t)
             cases.append(mk("instr_overlap", "", "INSTR(%d, %s, %s)" % (n, lit_str(s), lit_str(t)), exp, exp[1] > n))
+    # LTRIM$ / RTRIM$ remove blanks only: a TAB is an ordinary character
+    for k in range(1, 5):
+        for t in itertools.product(" \tx", repeat=k):
+            st = "".join(t)
+            if "\t" not in st:
+                continue
+            for fam, model, name in (("ltrim", m_ltrim, "LTRIM$"), ("rtrim", m_rtrim, "RTRIM$")):
+                exp = model(st)
+                cases.append(mk(fam + "_tab", "", "%s(%s)" % (name, lit_str(st)), exp, exp[1] != st))
     # LEN(a + b) = LEN(a) + LEN(b)
     pairs = [(a, b) for a in SS for b in SS]
     if tier == "quick":
